@@ -14,6 +14,7 @@ import Anko.Gen.LexFlow
 import Anko.Props.LexFlowTable
 import Anko.Props.Tie.LexFlow
 import Anko.Props.Tie.Grammar
+import Anko.Props.Tie.Inventory
 
 namespace Anko.C15
 open Anko.Scan
@@ -236,5 +237,16 @@ this property then searches for a failing input - so a change that breaks this p
 property is not overlooked. -/
 /-- the productions and actions of parser.go.y -/
 theorem source_tie_Grammar : Gen.Grammar.leaves = Tables.grammar := Tie.grammar
+
+
+/-! ### Declaration inventory
+
+Nothing was added to the packages this property is anchored in: their top-level declarations (functions, methods, variables, constants, types with
+the fields of struct types), regenerated from /repo on this run, are the audited ones (Props/Tie/Inventory). A helper, a package-level table or a
+file added there - code no flow table can pin - breaks the tie by name and makes this property's check search for a failing input. -/
+/-- parser/ (lexer.go; parser.go is goyacc's output of the pinned grammar) -/
+theorem declarations_of_Parser_are_the_audited_ones : Tie.ofPkg "parser" Gen.Inventory.decls = Tie.ofPkg "parser" Tables.inventory := Tie.inventoryParser
+/-- ast/ -/
+theorem declarations_of_Ast_are_the_audited_ones : Tie.ofPkg "ast" Gen.Inventory.decls = Tie.ofPkg "ast" Tables.inventory := Tie.inventoryAst
 
 end Anko.C15
